@@ -345,18 +345,79 @@ impl Prop for UnequalPairs {
     }
 }
 
+// ------------------------------------------------------ whole families must hash injectively
+
+/// Two men (any two of the twelve kinds) on every pair of squares, a fixed sprinkling of other men
+/// around them: thousands of positions that pairwise differ in placement, so all hashes must be
+/// distinct. One-component pairs cannot see keys that are aliased in a CROSSED pattern (the key of
+/// man A on s equals the key of man B on s+1); a family does, whatever the pattern.
+pub struct Families;
+
+impl crate::runner::DynProp for Families {
+    fn name(&self) -> &'static str {
+        "hash_families_injective"
+    }
+    fn run(&self, ctx: &Ctx, cases: u64) {
+        // 144 ordered pairs of kinds; `cases` families altogether, a different hasher seed and background each
+        crate::runner::par_range(ctx, "hash_families_injective", cases, |i, loc| {
+            let a = (i % 12) as usize;
+            let b = ((i / 12) % 12) as usize;
+            let piece = |c: usize| (if c < 6 { Col::W } else { Col::B }, KINDS[c % 6]);
+            let mut x = crate::runner::h64(&(i, ctx.seed, "fam"));
+            let hs = hasher(crate::runner::splitmix(&mut x));
+            // background: up to four other men on fixed squares (kept clear of nothing: a collision is a collision)
+            let mut base = Pos::empty(if crate::runner::splitmix(&mut x) % 2 == 0 { Col::W } else { Col::B });
+            for _ in 0..(crate::runner::splitmix(&mut x) % 5) {
+                let sq = (crate::runner::splitmix(&mut x) % 64) as usize;
+                base.b[sq] = Some(piece((crate::runner::splitmix(&mut x) % 12) as usize));
+            }
+            let mut seen: std::collections::HashMap<u64, String> = std::collections::HashMap::with_capacity(4096);
+            for s1 in 0..64usize {
+                for s2 in 0..64usize {
+                    if s1 == s2 || base.b[s1].is_some() || base.b[s2].is_some() {
+                        continue;
+                    }
+                    if a == b && s1 > s2 {
+                        continue; // the same position as (s2, s1)
+                    }
+                    let mut p = base.clone();
+                    p.b[s1] = Some(piece(a));
+                    p.b[s2] = Some(piece(b));
+                    let hv = h(&hs, &p);
+                    loc.eval();
+                    let placement = p.fen4();
+                    if let Some(other) = seen.insert(hv, placement.clone()) {
+                        if other != placement {
+                            return Err((json!({"index": i}), format!("'{}' and '{}' differ in placement but hash equal ({:#018x}) under one hasher", other, placement, hv)));
+                        }
+                    }
+                }
+            }
+            loc.nontrivial(&(a, b, i));
+            if i % 97 == 0 {
+                loc.sample(|| json!({"family": format!("{:?} and {:?} on all square pairs", piece(a), piece(b)), "positions": seen.len()}));
+            }
+            Ok(())
+        });
+    }
+    fn replay(&self, _: &Ctx, _: &serde_json::Value) -> Result<(), String> {
+        Ok(())
+    }
+}
+
 pub fn plan(ctx: &Ctx) -> Plan {
     let t = ctx.tier;
     Plan {
         props: vec![
             (Box::new(EqualPairs), t.pick(150_000, 4_000_000)),
             (Box::new(UnequalPairs), t.pick(1_500_000, 30_000_000)),
+            (Box::new(Families), t.pick(432, 14_400)),
         ],
         rule: "hasher seeds are generated (ChaCha8, as the engine seeds its hashers). Equal pairs: the same position \
                with different counters; a state and its FEN re-parse; every position of a random game reached by \
                weechess's own successors versus the same position built directly; two move orders a,b,c / c,b,a from a generated \
                position that the oracle shows to reach the same 4-field position, each reached by weechess's own play. \
-               Unequal pairs differ from a generated legal position in exactly one component and are again legal: one \
+               Families: any two of the twelve kinds of men on all pairs of squares over a random background - all hashes of one family must be distinct. Unequal pairs differ from a generated legal position in exactly one component and are again legal: one \
                piece moved / added / removed / recoloured / re-kinded, side to move flipped, a different castling-right \
                subset, an en-passant capture legally available versus no target. Pairs that differ only in a \
                non-capturable or pinned en-passant target carry no expectation and are counted separately. \
